@@ -12,7 +12,7 @@ ID = 'C04'
 CRATES = ['jj-lib', 'jj-core']
 NATIVE = 'c04'
 BOUNDS = {
-    'quick': 'line level, same-change Keep and Accept: 3-way merges with 1 line per term (with/without final newline, empty side), (2,1,1)/(1,2,1)/(1,1,2)/(2,1,2) lines; then (budget permitting) word level on 1-line terms, (2,2,2) lines and 5-way merges of 1-line terms; one symbolic non-LF byte per line',
+    'quick': 'line level, same-change Keep and Accept: 3-way merges with 1 line per term (with/without final newline, empty side), (2,1,1)/(1,2,1)/(1,1,2)/(2,1,2) lines, and 5-way merges of 1-line terms; one symbolic non-LF byte per line',
     'thorough': '3-way up to 2 lines per term in every shape; 5-way 1..2 lines; 7-way 1 line per term',
 }
 ASSUMPTIONS = [
@@ -33,13 +33,13 @@ def jobs(tier):
     for sh in three:
         for sc in ('Accept', 'Keep'):
             add(sh, 'Line', sc, 0 if sum(len(t) for t in sh) <= 3 else 1, 6 ** sum(len(t) for t in sh))
+    add([[L]] * 5, 'Line', 'Accept', 1, 6 ** 5); add([[L]] * 5, 'Line', 'Keep', 1, 6 ** 5)
     add([[L], [L], [L]], 'Word', 'Accept', 2, 6 ** 4)
     add([[L, L], [L, L], [L, L]], 'Line', 'Accept', 3, 6 ** 6)
-    add([[L]] * 5, 'Line', 'Accept', 3, 6 ** 5)
     if tier == 'quick': return [j for j in out if j['rung'] <= 1]
     if tier == 'thorough':
         add([[L], [L], [L]], 'Word', 'Keep', 4, 6 ** 4); add([[X], [L], [L]], 'Word', 'Accept', 4, 6 ** 4)
-        add([[L, L], [L, L], [L, L]], 'Line', 'Keep', 5, 6 ** 6); add([[L]] * 5, 'Line', 'Keep', 5, 6 ** 5)
+        add([[L, L], [L, L], [L, L]], 'Line', 'Keep', 5, 6 ** 6)
         add([[L, L], [L], [L], [L], [L, L]], 'Line', 'Accept', 6, 6 ** 7); add([[L]] * 7, 'Line', 'Accept', 6, 6 ** 7)
     return out
 
